@@ -94,7 +94,7 @@ def run(prop, obligations, tier, seed, jobs=0):
             continue
         data = json.load(open(json_out))
         by_id = {r["harness_id"]: r for r in data.get("verification_results", {}).get("results", [])}
-        stats = {c["harness_id"]: c.get("cbmc_stats", {}) for c in data.get("cbmc", [])}
+        stats = {c["harness_id"]: (c.get("cbmc_stats") or {}) for c in data.get("cbmc", [])}
         for o in obls:
             q = _qual(o)
             r = by_id.get(q)
@@ -107,7 +107,8 @@ def run(prop, obligations, tier, seed, jobs=0):
 
 
 def _classify(prop, o, r, st, out, features, timeout, extra_env=None):
-    checks = r.get("checks", [])
+    st = st or {}
+    checks = r.get("checks") or []
     covers = [c for c in checks if c.get("category") == "cover"]
     sat = [c for c in covers if c["status"] == "Satisfied"]
     failed = [c for c in checks if c["status"] == "Failure"]
